@@ -447,6 +447,10 @@ func Exec(def *OpDef, a *Args) (o Outcome) {
 				o = Outcome{Hang: true, Panic: "hang: step budget exceeded"}
 				return
 			}
+			if _, ok := r.(deadlockSentinel); ok {
+				o = Outcome{Hang: true, Panic: "deadlock: the task waits for a lock that no runnable task can release"}
+				return
+			}
 			msg := fmt.Sprint(r)
 			if i := strings.IndexByte(msg, '\n'); i >= 0 {
 				msg = msg[:i]
